@@ -42,6 +42,8 @@ pub struct Exec {
     /// a group was mutated (insert/extend/remove/reserve) since the last poll:
     /// the caller knows it has to poll again
     pub mutated: bool,
+    /// drop the combinator from inside the unwinding of a panicking poll
+    pub unwind_drop: bool,
 }
 
 pub fn fresh_flag() -> Arc<PFlag> {
@@ -73,7 +75,9 @@ pub fn innermost_panicked(w: &World) -> Option<NodeId> {
 impl Exec {
     pub fn new(case: &Case) -> Exec {
         let (top_id, top) = build_top(&case.root);
-        Exec::with_top(top_id, top)
+        let mut e = Exec::with_top(top_id, top);
+        e.unwind_drop = case.unwind_drop;
+        e
     }
 
     pub fn with_top(top_id: NodeId, top: Top) -> Exec {
@@ -93,6 +97,7 @@ impl Exec {
             spurious_polls: 0,
             waker_changes_while_parked: 0,
             mutated: false,
+            unwind_drop: false,
         }
     }
 
@@ -167,29 +172,65 @@ impl Exec {
             Item(Val),
             End,
         }
-        let top = self.top.as_mut().unwrap();
-        let r = catch_unwind(AssertUnwindSafe(|| match top {
-            Top::F(f) => match f.as_mut().poll(&mut cx) {
-                Poll::Pending => Out::Pending,
-                Poll::Ready(v) => Out::F(v),
-            },
-            Top::R(f) => match f.as_mut().poll(&mut cx) {
-                Poll::Pending => Out::Pending,
-                Poll::Ready(v) => Out::R(v),
-            },
-            Top::S(s) => match s.as_mut().poll_next(&mut cx) {
-                Poll::Pending => Out::Pending,
-                Poll::Ready(Some(v)) => Out::Item(v),
-                Poll::Ready(None) => Out::End,
-            },
-            Top::G(g) => match g.poll_next(&mut cx) {
-                Poll::Pending => Out::Pending,
-                Poll::Ready(Some(v)) => Out::Item(v),
-                Poll::Ready(None) => Out::End,
-            },
-        }));
+        // The owner of the combinator: if the poll unwinds and the case says
+        // so, the combinator is dropped by that very unwinding (while
+        // `std::thread::panicking()` is true), as happens to a combinator that
+        // lives in the frame - or the async block - the panic passes through.
+        struct Owner<'a> {
+            slot: &'a mut Option<Top>,
+            id: NodeId,
+            armed: bool,
+        }
+        impl Drop for Owner<'_> {
+            fn drop(&mut self) {
+                if self.armed && std::thread::panicking() {
+                    world::with(|w| {
+                        w.in_top_poll = false;
+                        if w.trace_on {
+                            w.trace.push(" DROP combinator (by the unwinding of the panic)".into());
+                        }
+                    });
+                    world::node_drop_begin(self.id);
+                    let t = self.slot.take();
+                    drop(t);
+                    world::node_dropped(self.id);
+                }
+            }
+        }
         let is_group = matches!(self.top, Some(Top::G(_)));
+        let armed = self.unwind_drop;
+        let slot = &mut self.top;
+        let r = catch_unwind(AssertUnwindSafe(|| {
+            let mut owner = Owner { slot, id, armed };
+            let out = match owner.slot.as_mut().unwrap() {
+                Top::F(f) => match f.as_mut().poll(&mut cx) {
+                    Poll::Pending => Out::Pending,
+                    Poll::Ready(v) => Out::F(v),
+                },
+                Top::R(f) => match f.as_mut().poll(&mut cx) {
+                    Poll::Pending => Out::Pending,
+                    Poll::Ready(v) => Out::R(v),
+                },
+                Top::S(s) => match s.as_mut().poll_next(&mut cx) {
+                    Poll::Pending => Out::Pending,
+                    Poll::Ready(Some(v)) => Out::Item(v),
+                    Poll::Ready(None) => Out::End,
+                },
+                Top::G(g) => match g.poll_next(&mut cx) {
+                    Poll::Pending => Out::Pending,
+                    Poll::Ready(Some(v)) => Out::Item(v),
+                    Poll::Ready(None) => Out::End,
+                },
+            };
+            owner.armed = false;
+            out
+        }));
         world::with(|w| w.in_top_poll = false);
+        if self.top.is_none() {
+            // dropped by the unwinding
+            self.dropped = true;
+            self.after_drop_checks();
+        }
         match r {
             Ok(Out::Pending) => {
                 world::comb_poll_end(id, Answer::Pend(PendKind::Comb));
@@ -318,6 +359,10 @@ impl Exec {
         // the top node itself has no DropMark: account for it here, which also
         // checks that every child it owned is gone.
         world::node_dropped(id);
+        self.after_drop_checks();
+    }
+
+    fn after_drop_checks(&mut self) {
         // deeper levels: everything in the tree must be gone now
         world::with(|w| {
             let ids: Vec<NodeId> = (0..w.nodes.len()).collect();
@@ -515,18 +560,24 @@ impl Exec {
             if cands.is_empty() {
                 return true;
             }
-            let b = order.get(oi).cloned().unwrap_or(0);
+            // the generated order first; long drains go on with a sequence
+            // derived from it (never a constant choice)
+            let b = if order.is_empty() { 0 } else { order[oi % order.len()].wrapping_add(((oi / order.len()) as u8).wrapping_mul(37)) };
+            let late = oi >= order.len();
             oi += 1;
-            let target = cands[(b as usize * cands.len()) >> 8];
-            let r = catch_unwind(AssertUnwindSafe(|| world::fire(target, 0, false)));
-            match r {
-                Err(_) => {
-                    self.inconclusive = Some("runaway inside a waker");
-                    return false;
-                }
-                Ok(info) => {
-                    if info.first_on_current {
-                        self.check_l_event(target);
+            // in long drains, now and then every outstanding waker at once
+            let targets: Vec<NodeId> = if late && b % 5 == 4 { cands.clone() } else { vec![cands[(b as usize * cands.len()) >> 8]] };
+            for target in targets {
+                let r = catch_unwind(AssertUnwindSafe(|| world::fire(target, 0, false)));
+                match r {
+                    Err(_) => {
+                        self.inconclusive = Some("runaway inside a waker");
+                        return false;
+                    }
+                    Ok(info) => {
+                        if info.first_on_current {
+                            self.check_l_event(target);
+                        }
                     }
                 }
             }
